@@ -127,3 +127,73 @@ def cut(data, cuts):
             prev = c
     out.append(data[prev:])
     return [x for x in out if x] or [b'']
+
+
+# ---------------------------------------------------------------------------
+# an established client connection on a fake transport, with a virtual clock
+
+GUID = b'0123456789abcdef0123456789abcdef'
+
+
+class ClientRig:
+    """DBusClientConnection driven entirely in memory.
+
+    `clock` replaces txdbus.client.reactor (restored by close_rig)."""
+
+    def __init__(self, unix=False, bus_name=':1.42', establish=True):
+        from twisted.internet import task
+        import txdbus.client as C
+        self.C = C
+        self.clock = task.Clock()
+        self._saved_reactor = C.reactor
+        C.reactor = self.clock
+        self.factory = C.DBusClientFactory()
+        self.connect_results = []
+        self.factory.getConnection().addBoth(self.connect_results.append)
+        self.conn = self.factory.buildProtocol(None)
+        self.transport = FakeUnixTransport() if unix else FakeTransport()
+        self.conn.makeConnection(self.transport)
+        self.unix = unix
+        self.bus_name = bus_name
+        self.hello_serial = None
+        if establish:
+            self.establish()
+
+    def establish(self):
+        from . import refcodec as R
+        self.transport.take()
+        deliver(self.conn, b'OK ' + GUID + b'\r\n')
+        if self.unix:
+            deliver(self.conn, b'AGREE_UNIX_FD\r\n')
+        out = self.transport.take()
+        assert out.startswith((b'NEGOTIATE_UNIX_FD\r\nBEGIN\r\n' if self.unix else b'BEGIN\r\n')), out
+        raw = out.split(b'BEGIN\r\n', 1)[1]
+        hello = R.decode_message(raw)
+        assert hello['fields'][3] == 'Hello'
+        self.hello_serial = hello['serial']
+        deliver(self.conn, R.encode_message(2, 1, {5: hello['serial'], 6: self.bus_name}, 's', [self.bus_name]))
+        assert self.conn.busName == self.bus_name
+        return self
+
+    def sent_messages(self):
+        """Decode and clear everything written since the last call: list of dicts from the
+        reference decoder (strict), each with 'raw'; fds interleaved as ('fd', x)."""
+        from . import refcodec as R
+        out = []
+        buf = b''
+        for kind, item in self.transport.take_events():
+            if kind == 'fd':
+                out.append(('fd', item))
+                continue
+            buf += item
+            while len(buf) >= 16 and len(buf) >= R.message_length(buf[:16]):
+                n = R.message_length(buf[:16])
+                d = R.decode_message(buf[:n])
+                d['raw'] = buf[:n]
+                out.append(('msg', d))
+                buf = buf[n:]
+        assert not buf, 'partial message written: %r' % buf
+        return out
+
+    def close_rig(self):
+        self.C.reactor = self._saved_reactor
